@@ -1,4 +1,5 @@
 import PedVerif.Gen.Wrappers
+import PedVerif.Gen.CallTables
 /-!
 Model of the utility decorators (C18): `trace`, `timer`, `count_calls`, `deprecated`, `trace_if_returns`,
 `does_same_as_function`, `rename_kwargs`, `mock`, `unimplemented`, `overrides`, `require_kwargs`, and the member loop of
@@ -103,11 +104,34 @@ inductive Res (α : Type) where
   | exc (e : Exc)
 deriving Repr
 
+/-! ### The generator protocol (environment: CPython's generator / async generator objects)
+
+A generator function hands out a generator object and runs nothing; the caller drives the object with `next` / `send` / `throw` /
+`close` (`__anext__` / `asend` / `athrow` / `aclose` for an async generator; `yield from` forwards all four and hands the `return`
+value on). -/
+
+/-- one operation of the caller on a generator object; `send 0` = `send(None)` = `next` -/
+inductive GenOp where
+  | next
+  | send (v : Nat)
+  | throw (e : Nat) (base : Bool)
+  | close
+deriving DecidableEq, Repr
+
+/-- what the generator body notes down when it is resumed: the value `yield` evaluated to, the exception raised at the `yield`,
+    `GeneratorExit` -/
+inductive GenEv where
+  | got (v : Nat)
+  | thrown (e : Nat)
+  | closed
+deriving DecidableEq, Repr
+
 inductive Ev where
   | body (c : Callee) (i : Nat) (b : Bound)     -- i-th invocation of the body of `c` with these bound arguments
   | print (layer : Nat)
   | warn (layer : Nat) (cat : String)
   | incr (layer : Nat) (k : Int)                -- `wrapper.num_calls += k` of the decorator at depth `layer`
+  | gen (i : Nat) (what : GenEv)                -- what the i-th generator of the decorated generator function received
 deriving DecidableEq, Repr
 
 /-- what the scripts read: how often each body has run so far -/
@@ -124,12 +148,23 @@ def World.bump (w : World) : Callee → World
   | .wrapped => { w with inv := w.inv + 1 }
   | .other => { w with oinv := w.oinv + 1 }
 
+/-- what the caller sees per operation on a generator object -/
+inductive GenObs where
+  | yielded (v : Nat)          -- identity of the object `yield` handed out
+  | stop (v : Nat)             -- StopIteration / StopAsyncIteration; identity of the `return` value (0 = None)
+  | raised (e : Exc)
+  | closed                     -- `close()` / `aclose()` returned
+  | nothing                    -- `athrow()` on a finished async generator returns None
+deriving DecidableEq, Repr
+
 inductive Val where
   | obj (o : Obj)
   | none
   | opaque                 -- the value of some other pure expression
   | spent                  -- a local whose coroutine has been awaited
   | coro (run : World → Res Val × List Ev × World)
+  /-- a generator / async generator object: what driving it with a list of operations shows and does -/
+  | gen (drive : List GenOp → World → List GenObs × List Ev × World)
 
 abbrev Out := Res Val × List Ev × World
 abbrev Sem := Args → World → Out
@@ -147,6 +182,63 @@ def callBody (c : Callee) (b : Body) : Sem := fun a w =>
   | none => (.exc (.lib "TypeError"), [], w)
   | some bd => if b.isCoro then (.ret (.coro (runBody c b bd)), [], w) else runBody c b bd w
 
+/-- a generator function (`def` / `async def` with `yield`): its i-th generator yields the objects `yields i` one after the other —
+    noting down what every `yield` evaluates to (`send`), which exception arrives there (`throw`; an `Exception` is swallowed and the
+    generator goes on, a `BaseException` is re-raised) and `GeneratorExit` (`close`) — and ends as `script i` says: `return v`
+    (an async generator cannot return a value: it just ends) or raise -/
+structure GenBody where
+  isAsync : Bool
+  sig : Sig
+  yields : Nat → List Obj
+  script : Nat → Outc
+
+inductive GenSt where
+  | fresh                               -- not started
+  | susp (i : Nat) (rest : List Obj)    -- suspended at a `yield`; `rest`: the objects still to be yielded
+  | done
+deriving DecidableEq, Repr
+
+/-- the body goes on after a `yield` (or starts): to the next `yield`, or to its end -/
+def genAdvance (g : GenBody) (i : Nat) : List Obj → GenSt × GenObs
+  | y :: rest => (.susp i rest, .yielded y.id)
+  | [] =>
+    (.done, match g.script i with
+      | .ret v => .stop (if g.isAsync then 0 else v.id)
+      | .exc e b => .raised (.body e b))
+
+/-- one operation on the generator object -/
+def genStep (g : GenBody) (c : Callee) (bd : Bound) (st : GenSt) (op : GenOp) (w : World) : GenSt × GenObs × List Ev × World :=
+  match st, op with
+  | .fresh, .send (_ + 1) => (.fresh, .raised (.lib "TypeError"), [], w)          -- non-None value into a just-started generator
+  | .fresh, .throw e b => (.done, .raised (.body e b), [], w)                      -- raised at the `def` line: the body never runs
+  | .fresh, .close => (.done, .closed, [], w)
+  | .fresh, _ =>
+    let i := w.count c
+    let r := genAdvance g i (g.yields i)
+    (r.1, r.2, [.body c i bd], w.bump c)
+  | .susp i rest, .next => let r := genAdvance g i rest; (r.1, r.2, [.gen i (.got 0)], w)
+  | .susp i rest, .send v => let r := genAdvance g i rest; (r.1, r.2, [.gen i (.got v)], w)
+  | .susp i rest, .throw e b =>
+    if b then (.done, .raised (.body e b), [.gen i (.thrown e)], w)
+    else let r := genAdvance g i rest; (r.1, r.2, [.gen i (.thrown e)], w)
+  | .susp i _, .close => (.done, .closed, [.gen i .closed], w)
+  | .done, .throw e b => (.done, if g.isAsync then .nothing else .raised (.body e b), [], w)
+  | .done, .close => (.done, .closed, [], w)
+  | .done, _ => (.done, .stop 0, [], w)
+
+def genRun (g : GenBody) (c : Callee) (bd : Bound) : GenSt → List GenOp → World → List GenObs × List Ev × World
+  | _, [], w => ([], [], w)
+  | st, op :: rest, w =>
+    let r := genStep g c bd st op w
+    let r2 := genRun g c bd r.1 rest r.2.2.2
+    (r.2.1 :: r2.1, r.2.2.1 ++ r2.2.1, r2.2.2)
+
+/-- calling a generator function: bind, hand out the generator object; nothing runs -/
+def callGen (c : Callee) (g : GenBody) : Sem := fun a w =>
+  match bind g.sig a with
+  | none => (.exc (.lib "TypeError"), [], w)
+  | some bd => (.ret (.gen (genRun g c bd .fresh)), [], w)
+
 /-- what `DecoratedFunction` reads off the source text of the function `require_kwargs` wraps -/
 structure Guard where
   wantsArgs : Bool          -- `'*args' in source`
@@ -159,17 +251,26 @@ structure Guard where
                                 -- to the decorator (`@require_kwargs` above `@staticmethod`); `DecoratedFunction(func)` raises
 deriving DecidableEq, Repr
 
-/-- `should_have_kwargs` for a function that is no property setter and whose name is no dunder -/
-def Guard.shouldHaveKwargs (g : Guard) : Bool := !g.wantsArgs
+/-- `should_have_kwargs` (generated: `PedVerif.Gen.CallTables.shouldHaveKwargs`, translated from `DecoratedFunction.should_have_kwargs`)
+    for a function that is no property setter and whose name is no dunder -/
+def Guard.shouldHaveKwargs (g : Guard) : Bool := PedVerif.Gen.CallTables.shouldHaveKwargs false g.wantsArgs false false false
 
 /-- `DecoratedFunction.is_instance_method`: the first parameter `getfullargspec` lists is spelled `self` — and, when the source says so
     (`instanceMethodExcludesBound`, read by the translator), the callable is not a bound method object, whose instance is not among
     the arguments of a call -/
 def Guard.isInstanceMethod (g : Guard) : Bool := g.selfFirst && !(instanceMethodExcludesBound && g.isMethodObj)
 
+/-- does `args_without_self` drop the first positional argument (generated: `stripsFirst`, `usesMultiple`, translated from
+    `FunctionCall.args_without_self` / `DecoratedFunction`) -/
+def Guard.strips (g : Guard) : Bool :=
+  PedVerif.Gen.CallTables.stripsFirst g.isInstanceMethod g.isStatic (PedVerif.Gen.CallTables.usesMultiple g.nDecorators g.marker)
+
 /-- length of `args_without_self` -/
 def Guard.argsWithoutSelf (g : Guard) (n : Nat) : Nat :=
-  if g.isInstanceMethod || g.isStatic || decide (g.nDecorators > (if g.marker then 1 else 0)) then n - 1 else n
+  if g.strips then n - PedVerif.Gen.CallTables.stripFrom else n
+
+/-- `args_without_self`: what the refusal message formats -/
+def Guard.messageArgs (g : Guard) (a : Args) : List Nat := if g.strips then a.pos.drop PedVerif.Gen.CallTables.stripFrom else a.pos
 
 /-- `assert_uses_kwargs` raises -/
 def Guard.trips (g : Guard) (a : Args) : Bool := g.shouldHaveKwargs && decide (g.argsWithoutSelf a.pos.length > 0)
@@ -182,10 +283,10 @@ def Guard.rejects (g : Guard) (a : Args) : Option String :=
   -- method is called without any positional argument: the FUNCTION of a method reached through the class with the instance passed as
   -- `self=…` (before fix 86bfec9 also: a bound method handed to the decorator and called by keyword)
   else if g.isInstanceMethod && a.pos.isEmpty then some "IndexError"
-  else if g.trips a then some "PedanticCallWithArgsException" else none
+  else if g.trips a then some PedVerif.Gen.CallTables.assertUsesKwargsRaises else none
 
 /-- `FunctionCall._get_return_value` calls `func(**kwargs)` for these and `func(*args, **kwargs)` otherwise -/
-def Guard.staticOrClassMethod (g : Guard) : Bool := g.isStatic || g.isMethodObj
+def Guard.staticOrClassMethod (g : Guard) : Bool := PedVerif.Gen.CallTables.kwargsOnlyInvocation g.isStatic g.isMethodObj
 
 /-! ### Classes as `overrides` sees them (environment model: CPython's attribute lookup on a class object)
 
@@ -251,6 +352,17 @@ def ClassDesc.owns (c : ClassDesc) (n : Nat) : Bool :=
   | [] => false
   | body :: _ => body.any (fun m => m.name == n)
 
+/-- what the methods a wrapper may call on an object of the USER do: `__repr__` / `__str__` (formatting in `print` and in messages),
+    `__eq__` / `__ne__` (comparisons) — raise, or answer.  (The answer of `==` is the equality class of `Obj`.) -/
+structure Traits where
+  reprRaises : Bool
+  strRaises : Bool
+  eqRaises : Bool
+  neRaises : Bool
+deriving DecidableEq, Repr
+
+def Traits.total : Traits := ⟨false, false, false, false⟩
+
 /-- the arguments a decorator factory was applied to -/
 structure Params where
   param : Obj                    -- `return_value` of mock / trace_if_returns
@@ -259,9 +371,12 @@ structure Params where
   base : ClassDesc               -- overrides: `base_class`
   fname : Nat                    -- overrides: the (interned) name of the decorated function
   guard : Guard
+  /-- the objects of the run (arguments, results) by identity: which of their methods raise (environment, the same for every layer) -/
+  traits : Nat → Traits := fun _ => Traits.total
 
 inductive Fn where
   | body (b : Body)
+  | gen (g : GenBody)                              -- a generator function / async generator function (no coroutine function)
   | bound (self : Nat) (inner : Fn)               -- attribute access on an instance / class binds the first argument
   | deco (d : Deco) (p : Params) (inner : Fn)
 
@@ -285,12 +400,14 @@ def select (d : Deco) (coro : Bool) : Sel :=
 
 def Fn.depth : Fn → Nat
   | .body _ => 0
+  | .gen _ => 0
   | .bound _ i => i.depth
   | .deco _ _ i => i.depth + 1
 
 /-- `inspect.iscoroutinefunction` -/
 def Fn.isCoro : Fn → Bool
   | .body b => b.isCoro
+  | .gen _ => false
   | .bound _ i => i.isCoro
   | .deco d _ i =>
     match select d i.isCoro with
@@ -301,6 +418,7 @@ def Fn.isCoro : Fn → Bool
 /-- `__name__`, `__qualname__`, `__doc__`, `__module__` are those of the body: every wrapper in the stack copies them -/
 def Fn.metaOk : Fn → Bool
   | .body _ => true
+  | .gen _ => true
   | .bound _ i => i.metaOk
   | .deco d _ i =>
     match select d i.isCoro with
@@ -392,6 +510,65 @@ def evalCond (fr : Frame) (l : Locals) : Cond → Option Bool
     | some false => evalCond fr l b
     | r => r
 
+/-- formatting one value: `repr(v)` / `str(v)` runs the object's own method (coroutines, generators, None format without user code) -/
+def valFmtRaises (t : Nat → Traits) (rep : Bool) : Val → Option String
+  | .obj o => if rep then (if (t o.id).reprRaises then some "ReprErr" else none) else (if (t o.id).strRaises then some "StrErr" else none)
+  | _ => none
+
+/-- `repr` of a tuple / dict: `repr` of every element, in order -/
+def idsReprRaise (t : Nat → Traits) (ids : List Nat) : Option String :=
+  if ids.any (fun i => (t i).reprRaises) then some "ReprErr" else none
+
+def fmtOneRaises (fr : Frame) (l : Locals) : Fmt → Option String
+  | .args => idsReprRaise fr.p.traits fr.args.pos
+  | .kwargs => idsReprRaise fr.p.traits (fr.args.kw.map (·.2))
+  | .reprOf e =>
+    match evalExpr fr l e with
+    | none => some "UnboundLocalError"
+    | some v => valFmtRaises fr.p.traits true v
+  | .strOf e =>
+    match evalExpr fr l e with
+    | none => some "UnboundLocalError"
+    | some v => valFmtRaises fr.p.traits false v
+
+/-- building the text of a `print` / of an exception message: the first formatting operation that raises decides -/
+def fmtRaises (fr : Frame) (l : Locals) : List Fmt → Option String
+  | [] => none
+  | f :: rest =>
+    match fmtOneRaises fr l f with
+    | some c => some c
+    | none => fmtRaises fr l rest
+
+def objCmpRaises (t : Nat → Traits) (ne : Bool) (o : Obj) : Option String :=
+  if ne then (if (t o.id).neRaises then some "NeErr" else none) else (if (t o.id).eqRaises then some "EqErr" else none)
+
+/-- `a == b` / `a != b` runs `__eq__` / `__ne__` of the LEFT operand when that is an object of the user (all of them are of one class,
+    so the reflected method is never tried first, and the method answers with a bool); a left operand that is none of them (a coroutine
+    object, a generator, `None`) answers `NotImplemented`, and the reflected method of the RIGHT operand runs -/
+def cmpRaises (fr : Frame) (l : Locals) (ne : Bool) (a b : Expr) : Option String :=
+  match evalExpr fr l a with
+  | some (.obj o) => objCmpRaises fr.p.traits ne o
+  | some _ =>
+    match evalExpr fr l b with
+    | some (.obj o) => objCmpRaises fr.p.traits ne o
+    | _ => none
+  | none => none
+
+/-- the exception evaluating a test raises, if any (short-circuit: the right operand only when the left one does not decide) -/
+def condRaises (fr : Frame) (l : Locals) : Cond → Option String
+  | .eq a b => cmpRaises fr l false a b
+  | .ne a b => cmpRaises fr l true a b
+  | .not c => condRaises fr l c
+  | .and_ a b =>
+    match condRaises fr l a with
+    | some c => some c
+    | none => if evalCond fr l a = some true then condRaises fr l b else none
+  | .or_ a b =>
+    match condRaises fr l a with
+    | some c => some c
+    | none => if evalCond fr l a = some false then condRaises fr l b else none
+  | _ => none
+
 /-- the keyword arguments of a call site -/
 def mkKw (fr : Frame) (l : Locals) : KwSrc → List (Nat × Nat)
   | .kwargs => fr.args.kw
@@ -469,7 +646,10 @@ mutual
 /-- one statement of a wrapper body -/
 def exec (fr : Frame) (s : Stmt) (l : Locals) (w : World) : Step :=
   match s with
-  | .print => (.next l, [.print fr.layer], w)
+  | .print uses =>
+    match fmtRaises fr l uses with
+    | some c => (.done (.exc (.lib c)), [], w)          -- `__repr__` / `__str__` of an argument / a result raised: nothing is printed
+    | none => (.next l, [.print fr.layer], w)
   | .warn c => (.next l, [.warn fr.layer c], w)
   | .incr k => (.next l, [.incr fr.layer k], w)
   | .pure x => (.next (bindVar (some x) .opaque l), [], w)
@@ -488,18 +668,30 @@ def exec (fr : Frame) (s : Stmt) (l : Locals) (w : World) : Step :=
     | some d => (.next { l with renamed := d }, [], w)
   | .kwargsGuard =>
     match fr.p.guard.rejects fr.args with
-    | some cls => (.done (.exc (.lib cls)), [], w)
+    | some cls =>
+      -- the refusal message of `assert_uses_kwargs` formats `args_without_self`
+      if cls == PedVerif.Gen.CallTables.assertUsesKwargsRaises then
+        match idsReprRaise fr.p.traits (fr.p.guard.messageArgs fr.args) with
+        | some c => (.done (.exc (.lib c)), [], w)
+        | none => (.done (.exc (.lib cls)), [], w)
+      else (.done (.exc (.lib cls)), [], w)
     | none => (.next l, [], w)
   | .ret e =>
     match evalExpr fr l e with
     | none => unbound w
     | some v => (.done (.ret v), [], w)
-  | .raise c => (.done (.exc (.lib c)), [], w)
+  | .raise c uses =>
+    match fmtRaises fr l uses with
+    | some c' => (.done (.exc (.lib c')), [], w)        -- building the message failed
+    | none => (.done (.exc (.lib c)), [], w)
   | .ite c t e =>
-    match evalCond fr l c with
-    | none => unbound w
-    | some true => execL fr t l w
-    | some false => execL fr e l w
+    match condRaises fr l c with
+    | some cls => (.done (.exc (.lib cls)), [], w)      -- `__eq__` / `__ne__` of the left operand raised
+    | none =>
+      match evalCond fr l c with
+      | none => unbound w
+      | some true => execL fr t l w
+      | some false => execL fr e l w
   | .tryCatch b k h =>
     let r := execL fr b l w
     match r.1 with
@@ -557,6 +749,7 @@ def callLayer (d : Deco) (p : Params) (inner : Fn) (callee : Sem) : Sem :=
 /-- calling a (decorated) function -/
 def call : Fn → Sem
   | .body b => callBody .wrapped b
+  | .gen g => callGen .wrapped g
   | .bound s inner => fun a w => call inner { a with pos := s :: a.pos } w
   | .deco d p inner => callLayer d p inner (call inner)
 
@@ -568,6 +761,19 @@ def invoke (f : Fn) : Sem := fun a w =>
     let o2 := run o.2.2
     (o2.1, o.2.1 ++ o2.2.1, o2.2.2)
   | _ => o
+
+/-- what the caller of a generator function does: call, and drive the generator object that comes back with `ops` (a coroutine is
+    awaited, anything else is the outcome) -/
+def invokeG (ops : List GenOp) (f : Fn) (a : Args) (w : World) : (Res Val × List GenObs) × List Ev × World :=
+  let o := call f a w
+  match o.1 with
+  | .ret (.gen drive) =>
+    let r := drive ops o.2.2
+    ((o.1, r.1), o.2.1 ++ r.2.1, r.2.2)
+  | .ret (.coro run) =>
+    let o2 := run o.2.2
+    ((o2.1, []), o.2.1 ++ o2.2.1, o2.2.2)
+  | _ => ((o.1, []), o.2.1, o.2.2)
 
 /-! ### Re-entrant calls: a call of the decorated callable that starts while another call of the SAME callable is still open
 
@@ -613,6 +819,7 @@ def callBodyRe (re : Option Reent) (c : Callee) (b : Body) : Sem := fun a w =>
 
 def callWith (re : Option Reent) : Fn → Sem
   | .body b => callBodyRe re .wrapped b
+  | .gen g => callGen .wrapped g
   | .bound s inner => fun a w => callWith re inner { a with pos := s :: a.pos } w
   | .deco d p inner => callLayer d p inner (callWith re inner)
 
@@ -687,7 +894,7 @@ def attrAfterCall (d : Deco) (depth : Nat) (evs : List Ev) (v : Option Int) : Op
 /-! ### First-order observations -/
 
 inductive RTag where
-  | obj (o : Obj) | none | opaque | spent | coro
+  | obj (o : Obj) | none | opaque | spent | coro | gen
   | exc (e : Exc)
 deriving DecidableEq, Repr
 
@@ -697,11 +904,29 @@ def Res.tag : Res Val → RTag
   | .ret .opaque => .opaque
   | .ret .spent => .spent
   | .ret (.coro _) => .coro
+  | .ret (.gen _) => .gen
   | .exc e => .exc e
 
 def isBodyOf (c : Callee) : Ev → Bool
   | .body c' _ _ => c' == c
   | _ => false
+
+/-- the events of the decorated generator function's own body: its start and everything it notes down while it is driven -/
+def isGenBodyEv : Ev → Bool
+  | .body c _ _ => c == .wrapped
+  | .gen _ _ => true
+  | _ => false
+
+/-- what the property compares for a generator function: the kind of result, what every operation of the caller shows, the body's
+    own journal, and how often the body has started -/
+structure GenBodyObs where
+  res : RTag
+  obs : List GenObs
+  evs : List Ev
+  inv : Nat
+deriving DecidableEq, Repr
+
+def genBodyObs (o : (Res Val × List GenObs) × List Ev × World) : GenBodyObs := ⟨o.1.1.tag, o.1.2, o.2.1.filter isGenBodyEv, o.2.2.inv⟩
 
 def isWarnAt (layer : Nat) : Ev → Bool
   | .warn l _ => l == layer
@@ -749,6 +974,126 @@ def decoratedMember (d : Deco) (p : Params) (k : MemberKind) (acc : Access) (sel
     | .static, .instance => .bound self (.deco d p raw)
     | .classm, .cls => .deco d p (.bound cls raw)
     | .classm, .instance => .bound self (.deco d p (.bound cls raw))
-  else .deco (⟨"", "", [], .unknown, none, none, true, none⟩) p raw      -- a different loop: not modelled
+  else .deco (⟨"", "", [], .unknown, none, none, true, none, true⟩) p raw      -- a different loop: not modelled
+
+/-! ### Property members under `for_all_methods`
+
+`property(fget, fset, fdel)`: reading the attribute on an instance calls `fget(obj)`, assigning `fset(obj, value)`, deleting
+`fdel(obj)`; an empty slot raises AttributeError.  `for_all_methods` replaces a property member by a new property object; which
+accessor of the old one lands in which slot of the new one is read from the source (`rebuiltPropertySlots`,
+`missingAccessorStaysMissing`). -/
+
+inductive Slot where
+  | fget | fset | fdel
+deriving DecidableEq, Repr
+
+def Slot.name : Slot → String
+  | .fget => "fget"
+  | .fset => "fset"
+  | .fdel => "fdel"
+
+def Slot.ofName (s : String) : Option Slot :=
+  if s = "fget" then some .fget else if s = "fset" then some .fset else if s = "fdel" then some .fdel else none
+
+/-- a property object: the (plain, unbound) function in each slot -/
+structure PropObj where
+  fget : Option Fn
+  fset : Option Fn
+  fdel : Option Fn
+
+def PropObj.slot (po : PropObj) : Slot → Option Fn
+  | .fget => po.fget
+  | .fset => po.fset
+  | .fdel => po.fdel
+
+/-- `obj.attr` | `obj.attr = v` | `del obj.attr` -/
+inductive PropOp where
+  | get | set (v : Nat) | del
+deriving DecidableEq, Repr
+
+def PropOp.slot : PropOp → Slot
+  | .get => .fget
+  | .set _ => .fset
+  | .del => .fdel
+
+def PropOp.args (self : Nat) : PropOp → Args
+  | .get => ⟨[self], []⟩
+  | .set v => ⟨[self, v], []⟩
+  | .del => ⟨[self], []⟩
+
+/-- an assignment / a `del` statement has no value: what the accessor returns is dropped -/
+def dropValue (op : PropOp) (o : Out) : Out :=
+  match op, o.1 with
+  | .get, _ => o
+  | _, .ret _ => (.ret .none, o.2.1, o.2.2)
+  | _, .exc _ => o
+
+/-- the attribute operation on an instance whose class binds the property -/
+def propAccess (po : PropObj) (self : Nat) (op : PropOp) (w : World) : Out :=
+  match po.slot op.slot with
+  | none => (.exc (.lib "AttributeError"), [], w)
+  | some f => dropValue op (invoke f (op.args self) w)
+
+/-- the accessor of the OLD property that the slot `s` of the rebuilt one is made of -/
+def rebuiltSource (s : Slot) : Option Slot := (rebuiltPropertySlots.lookup s.name).bind Slot.ofName
+
+/-- the property object `for_all_methods(decorator)` stores in place of `old` -/
+def rebuildProp (d : Deco) (p : Params) (old : PropObj) : PropObj :=
+  if !propertiesHandled then old else        -- no `isinstance(attr_value, property)` branch in the member loop: properties stay what they are
+  let mk : Slot → Option Fn := fun s =>
+    match rebuiltSource s with
+    | none => none
+    | some src =>
+      match old.slot src with
+      | some f => some (.deco d p f)
+      | none => if missingAccessorStaysMissing then none else some (.deco d p (.body ⟨false, ⟨[], [], [], false, false⟩, fun _ => .exc 0 false⟩))
+  ⟨mk .fget, mk .fset, mk .fdel⟩
+
+/-! ### One decorator object applied to several callables
+
+`stub = mock(0); a = stub(a); b = stub(b)` — or `a = trace(a); b = trace(b)`: the decorator object is the same, the results must be
+independent.  Whether they are is a matter of where the wrapper `def`s stand (`Deco.freshWrappers`, read from the source): inside the
+function that receives the decorated callable (one wrapper object per application) or in the enclosing factory (one wrapper object
+per wrapper name, dressed anew — `update_wrapper` — by every application). -/
+
+/-- the result of one application: which wrapper OBJECT it is (`obj` = index of the application that handed it out first) and whose
+    `__name__` / `__qualname__` / `__doc__` / `__wrapped__` it shows once all applications are done (`shows` = index of a callable) -/
+structure Applied where
+  obj : Nat
+  shows : Nat
+  fn : Fn
+
+/-- the name of the wrapper the decorator hands out for `f` (`none`: it returns `f` itself / nothing modelled) -/
+def wrapperNameFor (d : Deco) (f : Fn) : Option String :=
+  match select d f.isCoro with
+  | .wrapper w => some w.name
+  | _ => none
+
+def firstIdx (p : Fn → Bool) : List Fn → Nat → Option Nat
+  | [], _ => none
+  | f :: rest, i => if p f then some i else firstIdx p rest (i + 1)
+
+def lastIdx (p : Fn → Bool) : List Fn → Nat → Option Nat
+  | [], _ => none
+  | f :: rest, i =>
+    match lastIdx p rest (i + 1) with
+    | some j => some j
+    | none => if p f then some i else none
+
+def applyOne (d : Deco) (p : Params) (fs : List Fn) (i : Nat) (f : Fn) : Applied :=
+  match wrapperNameFor d f with
+  | none => ⟨i, i, .deco d p f⟩                     -- the callable itself comes back
+  | some n =>
+    if d.freshWrappers then ⟨i, i, .deco d p f⟩
+    else
+      let same : Fn → Bool := fun g => wrapperNameFor d g == some n
+      ⟨(firstIdx same fs 0).getD i, (lastIdx same fs 0).getD i, .deco d p f⟩
+
+def applyFrom (d : Deco) (p : Params) (all : List Fn) : List Fn → Nat → List Applied
+  | [], _ => []
+  | f :: rest, i => applyOne d p all i f :: applyFrom d p all rest (i + 1)
+
+/-- `[deco(f) for f in fs]` with ONE decorator object `deco` -/
+def applyShared (d : Deco) (p : Params) (fs : List Fn) : List Applied := applyFrom d p fs fs 0
 
 end PedVerif.Utility
